@@ -66,6 +66,12 @@ func sourceCallOrdinals(fn *ssa.Function) map[*ssa.CallCommon]int {
 					name = funcKey(c)
 				case *ssa.MakeClosure:
 					name = funcKey(c.Fn.(*ssa.Function))
+				case *ssa.UnOp:
+					// a closure variable captured by another closure lives in a cell: the call
+					// loads it; when the cell is assigned exactly one closure, that is the callee
+					if mc := uniqueClosureOfCell(c); mc != nil {
+						name = funcKey(mc.Fn.(*ssa.Function))
+					}
 				}
 			}
 			if name == "" {
@@ -90,6 +96,71 @@ func sourceCallOrdinals(fn *ssa.Function) map[*ssa.CallCommon]int {
 		}
 	}
 	return out
+}
+
+// uniqueClosureOfCell: for a load `*cell` where cell is a local variable's cell that is
+// assigned exactly once, with a closure, that closure (nil otherwise). Cells captured by
+// other closures are only read there when they are assigned once before.
+func uniqueClosureOfCell(ld *ssa.UnOp) *ssa.MakeClosure {
+	if ld.Op != token.MUL {
+		return nil
+	}
+	a, ok := ld.X.(*ssa.Alloc)
+	if !ok {
+		// inside a closure: the cell is a captured variable of the enclosing function
+		if fv, isFV := ld.X.(*ssa.FreeVar); isFV {
+			a = cellOfFreeVar(fv)
+		}
+	}
+	if a == nil || a.Referrers() == nil {
+		return nil
+	}
+	var only *ssa.MakeClosure
+	n := 0
+	for _, ref := range *a.Referrers() {
+		if stv, ok := ref.(*ssa.Store); ok && stv.Addr == a {
+			n++
+			only, _ = stv.Val.(*ssa.MakeClosure)
+		}
+	}
+	if n == 1 {
+		return only
+	}
+	return nil
+}
+
+// cellOfFreeVar: the enclosing function's cell (Alloc) a closure's free variable is bound
+// to, when the closure is created exactly once there.
+func cellOfFreeVar(fv *ssa.FreeVar) *ssa.Alloc {
+	fn := fv.Parent()
+	if fn == nil || fn.Parent() == nil {
+		return nil
+	}
+	idx := -1
+	for i, v := range fn.FreeVars {
+		if v == fv {
+			idx = i
+		}
+	}
+	if idx < 0 {
+		return nil
+	}
+	var cell *ssa.Alloc
+	n := 0
+	for _, b := range fn.Parent().Blocks {
+		for _, in := range b.Instrs {
+			if mc, ok := in.(*ssa.MakeClosure); ok && mc.Fn == fn {
+				n++
+				if idx < len(mc.Bindings) {
+					cell, _ = mc.Bindings[idx].(*ssa.Alloc)
+				}
+			}
+		}
+	}
+	if n == 1 {
+		return cell
+	}
+	return nil
 }
 
 // callRec is one entry of the per-frame ghost call log (typestate obligations,
@@ -131,10 +202,30 @@ func (x *Exec) callCommon(fr *Frame, st *State, val ssa.Value, cc *ssa.CallCommo
 			fv := x.value(fr, cc.Value)
 			if fv.Cl != nil {
 				callee, bindings = fv.Cl.Fn, fv.Cl.Bindings
+			} else if ld, ok := cc.Value.(*ssa.UnOp); ok {
+				// the closure was stored into its variable's cell (it is captured by another
+				// closure); the cell is assigned once, so the load yields that closure
+				if mc := uniqueClosureOfCell(ld); mc != nil {
+					if cv, ok := fr.vals[mc]; ok && cv.Cl != nil {
+						callee, bindings = cv.Cl.Fn, cv.Cl.Bindings
+					}
+				}
 			}
 		}
 		if callee != nil {
 			name = funcKey(callee)
+		}
+	}
+	nameOnly := false
+	if name == "" {
+		// the callee's identity is known statically (a closure variable of the enclosing
+		// function) but its captured state is not available here: the call is logged and
+		// checked against at-call clauses, its effects are unknown
+		if ld, ok := cc.Value.(*ssa.UnOp); ok {
+			if mc := uniqueClosureOfCell(ld); mc != nil {
+				name = funcKey(mc.Fn.(*ssa.Function))
+				nameOnly = true
+			}
 		}
 	}
 	if name == "" {
@@ -173,6 +264,14 @@ func (x *Exec) callCommon(fr *Frame, st *State, val ssa.Value, cc *ssa.CallCommo
 	}
 	x.atCall(fr, st, name, ord, callee, logArgs, pos)
 	var res V
+	if nameOnly {
+		x.havocAll(st, fmt.Sprintf("call of closure %s from inside another closure (its captured state is not available there)", name))
+		res = x.freshOfType(st, rt, "dyn")
+		if rec != nil {
+			rec.res = res
+		}
+		return res
+	}
 	if cc.IsInvoke() {
 		res = x.invoke(fr, st, cc, recv, args, rt, pos)
 	} else {
@@ -187,6 +286,16 @@ func (x *Exec) callCommon(fr *Frame, st *State, val ssa.Value, cc *ssa.CallCommo
 // pureFieldFunc: the call goes through a function-valued struct field that a contract
 // file declares pure (`func field:T.f` + `pure`).
 func (x *Exec) pureFieldFunc(cc *ssa.CallCommon) (string, bool) {
+	// a function-typed parameter the enclosing function's contract declares pure
+	if prm, ok := cc.Value.(*ssa.Parameter); ok && prm.Parent() != nil {
+		if c := x.cs.Funcs[fullFuncKey(prm.Parent())]; c != nil {
+			for _, n := range c.PureParams {
+				if n == prm.Name() {
+					return "parameter " + prm.Name() + " of " + funcKey(prm.Parent()), true
+				}
+			}
+		}
+	}
 	ld, ok := cc.Value.(*ssa.UnOp)
 	if !ok || ld.Op != token.MUL {
 		return "", false
